@@ -460,7 +460,8 @@ def tower : Nat → Prog → Prog
 
 /-! ### text protocol (shared with harness/h_exn.c)
 
-  program ::= (s N) | (t K) | (g N) | (n) | (m K) | (r) | (q P P) | (c P (K*) P) | (f P) | (d N P)
+  program ::= (s N) | (t K) | (g N) | (k N) | (n) | (m K) | (r) | (q P P) | (c P (K*) P) | (f P) | (d N P)
+  `(k N)` = `raise` of signal N % 6 (SIGABRT SIGFPE SIGILL SIGINT SIGSEGV SIGTERM) after `exception_signals()`;
   `(g N)` = a library function raises (N even: KeyError from `get` on a Table, N odd: ValueError from `rem` on an Array);
   kinds K < 100 are mapped to objects K % 6 + 1, kinds 100 + j to the non-Type objects 8 + j (`kindObj`); `(n)` = throw NULL; `(m K)` = throw kind K with a malformed message;
   `(r)` = rethrow the bound object; `(d N P)` = P called through N frames.
@@ -513,6 +514,9 @@ def parseProg : Nat → List Tok → Option (Prog × List Tok)
   -- an exception raised by a library function called in the body: `get` of a missing Table key throws KeyError (kind
   -- 2), `rem` of an object that is not in an Array throws ValueError (kind 1) — for the machinery a `throw` like any other
   | _+1, .lp :: .sym 'g' :: .num n :: .rp :: r => some (.throw (if n % 2 = 0 then kindObj 2 else kindObj 1), r)
+  -- `raise(SIG…)` with exception_signals() installed: `Exception_Signal` throws the object its table names (address 15 + N % 6,
+  -- Cello/ExnSignal.lean `sigObj`; each signal at most once per program: the driver checks `sigsOnce`)
+  | _+1, .lp :: .sym 'k' :: .num n :: .rp :: r => some (.throw (15 + n % 6), r)
   | _+1, .lp :: .sym 'r' :: .rp :: r => some (.rethrow, r)
   | fuel+1, .lp :: .sym 'q' :: r =>
     match parseProg fuel r with
